@@ -639,12 +639,13 @@ namespace cgi {
 			if(!remote_addr) {
 				booster::system::error_code e;
 				if(remote_ip_.empty()) {
-					remote_ip_ = socket_.remote_endpoint(e).ip();
+					booster::aio::endpoint remote = socket_.remote_endpoint(e);
 					if(e) {
 						close();
 						h(e);
 						return;
 					}
+					remote_ip_ = remote.ip();
 				}
 				remote_addr=remote_ip_.c_str();
 			}
